@@ -242,3 +242,98 @@ func VerifC07_Twin() {
 	verifC07Merge(0, 0, 2)
 	verifAssert(false, "twin-false")
 }
+
+// VerifC07_Slots: three raw datapoints of one type (name n, tag set one of two, symbolic value,
+// sample rate 1 or 0.5 for counters and timers) are received - MetricMap.Receive, as the
+// consolidator's ReceiveMetrics does - into two slot maps by a symbolic assignment and the
+// slots merged; the result must be the same as receiving everything into one map: counter
+// totals, the multiset of timer values with the sampled count = sum of 1/rate, set members,
+// for every series.
+func verifC07Slots(typ int) {
+	type dp struct {
+		tag   int
+		val   int64
+		half  bool
+		slot  int
+		which int
+	}
+	var d [3]dp
+	for i := range d {
+		d[i] = dp{tag: nondetIntIn(0, 1), val: int64(nondetIntIn(1, 9)), half: nondetBool(), slot: nondetIntIn(0, 1), which: nondetIntIn(0, 1)}
+	}
+	mk := func(x dp) *Metric {
+		m := &Metric{Name: "n", Rate: 1, Timestamp: 5}
+		if x.tag == 1 {
+			m.Tags = Tags{"t:1"}
+		}
+		switch typ {
+		case 0:
+			m.Type, m.Value = COUNTER, float64(x.val)
+			if x.half {
+				m.Rate = 0.5
+			}
+		case 2:
+			m.Type, m.Value = TIMER, float64(x.val)
+			if x.half {
+				m.Rate = 0.5
+			}
+		default:
+			m.Type = SET
+			m.StringValue = []string{"x", "y"}[x.which]
+		}
+		return m
+	}
+	slots := [2]*MetricMap{NewMetricMap(false), NewMetricMap(false)}
+	one := NewMetricMap(false)
+	for _, x := range d {
+		slots[x.slot].Receive(mk(x))
+		one.Receive(mk(x))
+	}
+	merged := MergeMaps([]*MetricMap{slots[0], slots[1]})
+	for k := 0; k < 2; k++ {
+		tk := verifTagKeys[k]
+		switch typ {
+		case 0:
+			a, aok := merged.Counters["n"][tk]
+			b, bok := one.Counters["n"][tk]
+			verifAssert(aok == bok && a.Value == b.Value, "slots: counter total does not depend on the slot assignment")
+		case 2:
+			a, aok := merged.Timers["n"][tk]
+			b, bok := one.Timers["n"][tk]
+			verifAssert(aok == bok && len(a.Values) == len(b.Values), "slots: number of timer values does not depend on the slot assignment")
+			verifAssert(a.SampledCount == b.SampledCount, "slots: sampled count (sum of 1/rate) does not depend on the slot assignment")
+			var want float64
+			var sa, sb float64
+			for _, x := range d {
+				if x.tag == k {
+					if x.half {
+						want += 2
+					} else {
+						want++
+					}
+				}
+			}
+			for _, v := range a.Values {
+				sa += v
+			}
+			for _, v := range b.Values {
+				sb += v
+			}
+			verifAssert(sa == sb, "slots: timer values are the multiset union (sum compared)")
+			verifAssert(!aok || a.SampledCount == want, "slots: sampled count is the sum of 1/rate over the datapoints of the series")
+		default:
+			a, aok := merged.Sets["n"][tk]
+			b, bok := one.Sets["n"][tk]
+			verifAssert(aok == bok && len(a.Values) == len(b.Values), "slots: set members do not depend on the slot assignment")
+			for m := range b.Values {
+				_, has := a.Values[m]
+				verifAssert(has, "slots: set members do not depend on the slot assignment")
+			}
+		}
+	}
+	verifReach("slots")
+}
+
+func VerifC07_SlotsCounter() { verifC07Slots(0) }
+func VerifC07_SlotsTimer()   { verifC07Slots(2) }
+func VerifC07_SlotsSet()     { verifC07Slots(3) }
